@@ -108,12 +108,13 @@ static void chain_case(Tape& t, Ctx& c)
     int si = live[(size_t)t.range(0, (int)live.size() - 1)]; Slot& src = pool[si];
     int di = t.range(0, NS - 1); if(di == si) di = (si + 1) % NS; Slot& dst = pool[di];
     // candidate operations for this kind
-    enum { O_CLONE, O_MOVE, O_LAYOUT, O_TRANSPOSE, O_TRANSPOSE2, O_TRANSPOSE_INTO, O_TRANSPOSE_INPLACE, O_PERMUTE, O_TO_C32, O_TO_C64, O_TO_BD, O_TO_SC, O_GRAPH, O_SELF_CONVERT };
+    enum { O_CLONE, O_MOVE, O_LAYOUT, O_TRANSPOSE, O_TRANSPOSE2, O_TRANSPOSE_INTO, O_TRANSPOSE_INPLACE, O_PERMUTE, O_TO_C32, O_TO_C64, O_TO_BD, O_TO_SC, O_GRAPH, O_SELF_CONVERT, O_XCLONE };
     std::vector<int> ops = {O_CLONE, O_MOVE, O_SELF_CONVERT};
     if(src.kind != K_DM) ops.push_back(O_LAYOUT);
     if(src.kind == K_C64 || src.kind == K_B22 || src.kind == K_DM) { ops.push_back(O_TRANSPOSE); ops.push_back(O_TRANSPOSE2); ops.push_back(O_TRANSPOSE_INTO); }
     if(src.kind == K_DM) { ops.push_back(O_TRANSPOSE_INTO); ops.push_back(O_TRANSPOSE_INPLACE); }
     if(src.kind == K_C64 || src.kind == K_B22 || src.kind == K_B23) { ops.push_back(O_PERMUTE); ops.push_back(O_PERMUTE); }
+    if(src.kind == K_C64 || src.kind == K_B22) ops.push_back(O_XCLONE);
     if(src.kind == K_C64) { ops.push_back(O_TO_C32); ops.push_back(O_TO_BD); ops.push_back(O_TO_SC); ops.push_back(O_GRAPH); }
     if(src.kind != K_C64 && src.kind != K_DM) { ops.push_back(O_TO_C64); ops.push_back(O_TO_C64); } // DenseMatrix offers no conversion to sparse formats
     int op = ops[(size_t)t.range(0, (int)ops.size() - 1)];
@@ -192,6 +193,25 @@ static void chain_case(Tape& t, Ctx& c)
       if(twice && src.kind != K_DM) { // double transpose keeps the pattern as well
         Dense d = view(dst); VF_CHECK(d.stored == src.model.stored || nnz_of(src.model) == 0, "double transpose changed the sparsity pattern"); }
       break; }
+    case O_XCLONE: {
+      // clone(other, Deep) INTO A CONTAINER OF ANOTHER DATA TYPE (same or other index type): the result owns all its arrays, so
+      // permuting it in place must leave the source alone (and vice versa); the values are the casts of the source's
+      const int it32 = t.range(0, 1); opname = std::string("clone-cross-type:deep:") + (it32 ? "float,u32" : "float,u64"); h.set("op", opname); hist.add(h); c.desc.set("history", hist); c.op = opname + "@" + kind_name[src.kind]; c.label("op:" + opname);
+      long br = (src.kind == K_B22) ? 2 : 1; Index nr = Index(src.model.r / br), nc = Index(src.model.c / br);
+      std::vector<Index> pp, qq; Adjacency::Permutation P, Q; if(nr > 0 && nc > 0) { P = make_perm(t, nr, pp); Q = make_perm(t, nc, qq); }
+      h.set("p", J(std::vector<long>(pp.begin(), pp.end()))); h.set("q", J(std::vector<long>(qq.begin(), qq.end()))); c.announce();
+      auto probe = [&](auto& cl, auto& sm) {
+        cl.clone(sm, CloneMode::Deep);
+        VF_CHECK(cl.rows() == sm.rows() && cl.columns() == sm.columns() && cl.used_elements() == sm.used_elements(), "cross-type deep clone has different dimensions");
+        for(size_t k = 0; k < cl.get_indices().size() && k < sm.get_indices().size(); ++k) if(sm.get_indices_size()[k] > 0)
+          VF_CHECK((const void*)cl.get_indices()[k] != (const void*)sm.get_indices()[k], "deep clone into another data type shares index array " << k << " with its source");
+        { Dense d = dense_of(cl); VF_CHECK(d.r == src.model.r && d.c == src.model.c, "cross-type deep clone represents a matrix of other dimensions");
+          for(long i = 0; i < d.r; ++i) for(long j = 0; j < d.c; ++j) { VF_CHECK((bool)d.st(i, j) == (bool)src.model.st(i, j), "cross-type deep clone: stored position (" << i << "," << j << ") differs"); VF_CHECK(d(i, j) == (long double)(float)(double)src.model(i, j), "cross-type deep clone: entry (" << i << "," << j << ") = " << (double)d(i, j) << " is not the cast of " << (double)src.model(i, j)); } }
+        if(nr > 0 && nc > 0 && sm.used_elements() > 0) cl.permute(P, Q);   // in place on the clone only
+      };
+      if(src.kind == K_C64) { if(it32) { SparseMatrixCSR<float, std::uint32_t> cl; probe(cl, src.c64); } else { SparseMatrixCSR<float, std::uint64_t> cl; probe(cl, src.c64); } }
+      else { if(it32) { SparseMatrixBCSR<float, std::uint32_t, 2, 2> cl; probe(cl, src.b22); } else { SparseMatrixBCSR<float, std::uint64_t, 2, 2> cl; probe(cl, src.b22); } }
+      di = si; break; }   // the invariant below checks that the source (and everybody else) still represents its model
     case O_TRANSPOSE_INTO: {
       // two-argument form target.transpose(x) into a prepared target: empty, already of the transposed shape (storage re-use
       // branch of DenseMatrix; the 'refresh A^T after A changed' use), of the source's shape, or the source itself
